@@ -634,6 +634,14 @@ func init() {
 					if sl == simSlot([]byte("bg:key")) {
 						continue
 					}
+					if cps {
+						// a large value written to a key that has already moved: the source answers ASK, the request is
+						// sent again - and must not be compressed again; then it is read back
+						big := bytes.Repeat([]byte{byte('a' + r.intn(3))}, 4000+r.intn(60000))
+						items = append(items, fmt.Sprintf("mb %d %d", sl, r.intn(n)), "mk "+hex.EncodeToString(k),
+							"q "+bulkArr([]byte("set"), k, big).String(), "q "+bulkArr([]byte("get"), k).String())
+						continue
+					}
 					items = append(items, fmt.Sprintf("mb %d %d", sl, r.intn(n)))
 					if r.chance(1, 2) {
 						items = append(items, "mk "+hex.EncodeToString(k))
